@@ -379,6 +379,17 @@ struct Single {
     size: i64,
 }
 
+#[derive(serde::Serialize, serde::Deserialize, Debug, Clone, PartialEq)]
+struct Newtype(char);
+#[derive(serde::Serialize, serde::Deserialize, Debug, Clone, PartialEq)]
+struct UnitStruct;
+#[derive(serde::Serialize, serde::Deserialize, Debug, Clone, PartialEq)]
+struct WithChar {
+    c: char,
+    s: String,
+    n: Newtype,
+}
+
 /// No fields at all: the only derived object whose empty / blank / default answers are `true`.
 #[derive(ObjectView, ValueView, serde::Serialize, serde::Deserialize, Debug, Clone, PartialEq)]
 struct Empty {}
@@ -609,6 +620,24 @@ fn derive_family(report: &Report) {
     roundtrip(report, idx, "string-looking-like-number", &"10".to_string());
     idx += 1;
     roundtrip(report, idx, "string-looking-like-bool", &"true".to_string());
+    // every leaf kind of the serde data model, alone and inside each container shape; text leaves with 1-, 2-, 3-
+    // and 4-byte characters (a `char` is one character, not one byte)
+    for c in ['a', '0', ' ', 'é', 'ß', '語', '\u{2003}', '👍', '\u{10FFFF}'] {
+        idx += 1;
+        roundtrip(report, idx, "char", &c);
+        roundtrip(report, idx, "option-char", &Some(c));
+        roundtrip(report, idx, "vec-char", &vec![c, 'x', c]);
+        roundtrip(report, idx, "tuple-char-string", &(c, c.to_string(), format!("{c}{c}")));
+        roundtrip(report, idx, "map-of-char", &BTreeMap::from([("k".to_string(), c)]));
+        roundtrip(report, idx, "struct-with-char", &WithChar { c, s: c.to_string(), n: Newtype(c) });
+    }
+    idx += 1;
+    roundtrip(report, idx, "unit", &());
+    roundtrip(report, idx, "unit-struct", &UnitStruct);
+    roundtrip(report, idx, "small-ints", &(-128i8, 255u8, -32768i16, 65535u16, i32::MIN, u32::MAX));
+    roundtrip(report, idx, "f32", &(0.5f32, -2.25f32));
+    roundtrip(report, idx, "nested-options", &vec![Some(Some(1i64)), Some(Some(2))]);
+    roundtrip(report, idx, "empty-containers", &(Vec::<i64>::new(), BTreeMap::<String, i64>::new(), String::new()));
     report.nontrivial.fetch_add(nontriv, Ordering::Relaxed);
     report.sample(json!({"family": "derive vs serde", "type": "Nested", "templates": PROBES}));
     report.family(FamilyStat { name: "derive(ObjectView, ValueView) vs serde conversion".into(), cases: n, nontrivial: nontriv, skipped: 0, note: format!("{idx} instances of 6 derived structs + 4 enum shapes + tuples/options/maps x {} probing templates; Rust -> Liquid -> Rust round trips", PROBES.len()) });
